@@ -276,6 +276,11 @@ type c23Run struct {
 	differ   int
 	crossOK  int
 	crossBad int
+	// the coalescer of a reader routine lives for many batches: two out of three batches go through the SAME
+	// MultiCoalescer as the batch before (whatever a Flush leaves behind meets the next batch), every third through a
+	// fresh one
+	keepW *c23Writer
+	keepM *MultiCoalescer
 }
 
 // c23Exec runs one batch (tx order, ids 1..n) through a fresh MultiCoalescer in arrival order arr and records the
@@ -294,8 +299,18 @@ func (rn *c23Run) exec(t *testing.T, src string, fam int, batch []*c23Pkt, arr [
 			rn.res.Hit(src + ":session2")
 		}
 	}
-	w := &c23Writer{}
-	m := NewMultiCoalescer(w, test.NewLogger())
+	var w *c23Writer
+	var m *MultiCoalescer
+	if rn.keepM != nil && rn.n%3 != 0 {
+		w, m = rn.keepW, rn.keepM
+		w.ws = nil
+		rn.res.Hit("coalescer:reused")
+	} else {
+		w = &c23Writer{}
+		m = NewMultiCoalescer(w, test.NewLogger())
+		rn.res.Hit("coalescer:fresh")
+	}
+	rn.keepW, rn.keepM = w, m
 	if m.tcp == nil || m.udp == nil {
 		t.Fatalf("c23: lanes did not come up over a TSO+USO writer")
 	}
@@ -321,6 +336,7 @@ func (rn *c23Run) exec(t *testing.T, src string, fam int, batch []*c23Pkt, arr [
 	}()
 	if err != nil {
 		info.Err = err.Error()
+		rn.keepM = nil // a failed batch may leave anything behind: the next batch starts afresh
 	}
 	// ---- projection
 	used := make([]bool, len(batch)+1)
